@@ -26,8 +26,8 @@ out.append("Independent sub-agents were given only the text of one property and 
            "passes without it) and then run against the checks (`lib/seed.py`; patch, demonstration and meta.json are under "
            "`/verif/seeded/<name>/`). The last column is the result of the *current* quick checks with the change applied to "
            "/repo (`git -C /repo apply`, `./check`, `git -C /repo checkout -- .`) for rounds 1 and 2, and on an isolated "
-           "scratch worktree plus a copy of /verif built against it (`lib/seed_iso.py`) for round 3 (the -agent2 entries of "
-           "C03, C05, C07, C08, C10, C14, C16, C18).\n")
+           "scratch worktree plus a copy of /verif built against it (`lib/seed_iso.py`) for rounds 3 and 4 (the -agent2 entries of "
+           "C03, C05, C07, C08, C10, C14, C16, C18 and all -agent3 entries).\n")
 out.append("| seeded change | property | what it does | what it needs to manifest | quick checks |")
 out.append("|---|---|---|---|---|")
 out += rows
@@ -49,7 +49,13 @@ out.append("Changes that the first version of a check **missed** and what was st
            "the 16-bit limits, CHR$(ASC(..)) round trips in MC_C07), C10-agent2 (functions whose names differ only in the type "
            "suffix sharing a parameter slot: FNS% / FNS# and FNA / FNA$ templates in MC_Prog C10), C18-agent2 (a zero that only "
            "the conversion to the variable's type produces keeps its slot: `zeroconv` leak template -- the probe already "
-           "compared the whole store, no session produced such a zero); C04-agent1 was caught only "
+           "compared the whole store, no session produced such a zero); "
+           "round 4: C04-agent3 (a direct statement refused at compile time, then an edit, then RUN: the stale diagnostic "
+           "was filed against the program -- a failing direct statement added to MC_C04's menu), C17-agent3 (hexadecimal "
+           "replies containing the digit D read as E: &HD, &h1d, &HDE among the replies of MC_Prog C17 and the VAL texts of "
+           "MC_C07), C20-agent3 (no END appended after a final ON..GOTO that falls through: such a last line among MC_C20's "
+           "templates; C01 ended in a tool error on this change because hundreds of sessions printed until their budget ran "
+           "out -- responses of commands that exhaust the budget are now cut to 200 events); C04-agent1 was caught only "
            "through an identity RENUM, where the specification demanded more than the property (see I.5) -- the specification "
            "was relaxed there and MC_C14 got a RENUM that moves earlier lines but not the last, a failing statement and a direct "
            "GOTO to a new number, which catch it for the right reason.\n")
